@@ -208,7 +208,50 @@ def run_sweep_chunk(names, st):
                     if res is not None:
                         st.violation(res[0], res[1], case)
 
+    # many options on one header
+    if names and names[0] == sweep_first_name():
+        for j in range(len(exp)):
+            for n in (10, 31, 32, 33, 34, 35, 64, 100, 500):
+                case = {'many': n, 'header': j}
+                evals += 1
+                res = judge_many(data, exp, base, case)
+
+                if res is not None:
+                    st.violation(res[0], res[1], case)
+
     st.bulk(evals, evals, sample=sample)
+
+
+def sweep_first_name():
+    names = [k for k in sut.identifier_names() if k not in KNOWN]
+    return names[0]
+
+
+def judge_many(data, exp, base, case):
+    j, n = case['header'], case['many']
+    hs_, cs, _ce = exp[j]['span']
+    header = data[hs_:cs - 1]
+    pairs = [('o%d' % i, 'v%d' % i) for i in range(n)]
+    text = ', '.join('%s=%s' % p for p in pairs).encode('ascii')
+    new = header + (b' ' if header.endswith(b':') else b', ') + text
+    blob = data[:hs_] + new + b'\n' + data[cs:]
+    recs, err = sut.read_records(blob)
+
+    if err is not None:
+        return ('extended-file-rejected:%s' % type(err).__name__,
+                '%d options on header %d (%s): %r'
+                % (n, j, exp[j]['section'], err))
+
+    want = dict(base[j]['options'])
+    want.update(dict(pairs))
+
+    if len(recs) != len(base) or recs[j].get('options') != want:
+        return ('options-not-carried',
+                '%d options on header %d: got %d keys'
+                % (n, j, len(recs[j].get('options', ())) if len(recs) > j
+                   else -1))
+
+    return None
 
 
 def judge_probe(data, exp, base, case):
@@ -262,7 +305,8 @@ def run_sweep_case(case, st):
     data = spec.ref_serialize(PROBE_PROGRAM)
     exp, _ = spec.ref_parse(data)
     base, _e = sut.read_records(data)
-    res = judge_probe(data, exp, base, case)
+    res = (judge_many if 'many' in case else judge_probe)(data, exp, base,
+                                                          case)
     st.case(case, nontrivial=True)
 
     if res is not None:
